@@ -142,8 +142,13 @@ GenOpt == /\ pc = "opt"
 GenPair == /\ pc = "pair"
            /\ \E c \in Pairs : cs' = Case("pair", Rich, c, "go", TRUE)
            /\ pc' = "done"
+\* quick: fastgo only for the dimensions its struct codecs depend on
+FastDims == {"kinds", "shapes", "reqdef", "inc", "tdchain", "ids", "names", "ns"}
+FastVec(v) == Thorough \/ v = Base \/ \E d \in FastDims : v[d] # Base[d]
 GenVec == /\ pc = "vec"
-          /\ \E v \in (IF Thorough THEN TwoOff ELSE OneOff), be \in {"go", "fastgo"} : cs' = Case("vec", v, {}, be, TRUE)
+          /\ \E v \in (IF Thorough THEN TwoOff ELSE OneOff), be \in {"go", "fastgo"} :
+               /\ (be = "fastgo" => FastVec(v))
+               /\ cs' = Case("vec", v, {}, be, TRUE)
           /\ pc' = "done"
 GenRand == /\ pc = "rand"
            /\ \E n \in 1..NRand :
